@@ -168,9 +168,9 @@ def rotary23_model(p):
     g = G(opset=23)
     dt = p["dtype"]
     xs = list(p["xshape"])
-    x = g.inp("x", dt, xs)
+    x = g.inp("x", dt, list(p.get("decl_xshape", xs)), xs)
     fs = list(p["fshape"])
-    f = g.inp("freqs", dt, fs)
+    f = g.inp("freqs", dt, list(p.get("decl_fshape", fs)), fs)
     ff = g.op("Concat", [f, f], axis=-1)
     cos = g.op("Unsqueeze", [g.op("Cos", [ff]), g.const([p.get("unsq", 1)], "int64")])
     sin = g.op("Unsqueeze", [g.op("Sin", [ff]), g.const([p.get("unsq", 1)], "int64")])
@@ -180,7 +180,7 @@ def rotary23_model(p):
     rot = _rotate_half(g, x, s1, e1, s2, e2)
     y = g.op("Add", [g.op("Mul", [x, cos]), g.op("Mul", [rot, sin])])
     g.op("Identity", [y], out="y")
-    g.out("y", dt, xs)
+    g.out("y", dt, list(p.get("decl_xshape", xs)))
     return g
 
 
